@@ -18,10 +18,25 @@ def claimed():
     return [c['property_id'] for c in m['checks']]
 
 
+import queue
+SLOTS = queue.Queue()
+
+
 def eval_one(sid, checks, tier, jobs_each):
+    """each worker slot keeps one worktree path and one shadow directory, so third-party dependencies are built once
+    per slot and only the crate and the engines are rebuilt per seeded change"""
+    slot = SLOTS.get()
+    try:
+        return eval_in_slot(slot, sid, checks, tier, jobs_each)
+    finally:
+        SLOTS.put(slot)
+
+
+def eval_in_slot(slot, sid, checks, tier, jobs_each):
     d = os.path.join(ROOT, 'seeded', sid)
-    wt = tempfile.mkdtemp(prefix='se_', dir='/tmp')
-    os.rmdir(wt)
+    wt = f'/tmp/se_slot{slot}_wt'
+    subprocess.run(['git', '-C', '/repo', 'worktree', 'remove', '--force', wt], capture_output=True)
+    shutil.rmtree(wt, ignore_errors=True)
     r = subprocess.run(['git', '-C', '/repo', 'worktree', 'add', '--detach', wt, 'HEAD'], capture_output=True, text=True)
     if r.returncode != 0:
         return sid, {'error': 'worktree: ' + r.stderr[-300:]}
@@ -31,7 +46,7 @@ def eval_one(sid, checks, tier, jobs_each):
         r = subprocess.run(['git', '-C', wt, 'apply', os.path.join(d, 'patch.diff')], capture_output=True, text=True)
         if r.returncode != 0:
             return sid, {'error': 'patch does not apply: ' + r.stderr[-300:]}
-        shadow = wt + '_shadow'
+        shadow = f'/tmp/se_slot{slot}_shadow'
         env = dict(os.environ, VERIF_REPO=wt, VERIF_SHADOW=shadow, VERIF_JOBS=str(jobs_each))
         for c in checks:
             t0 = time.time()
@@ -49,7 +64,6 @@ def eval_one(sid, checks, tier, jobs_each):
                 res[c]['machinery'] = (p.stderr or '')[-500:]
     finally:
         subprocess.run(['git', '-C', '/repo', 'worktree', 'remove', '--force', wt], capture_output=True)
-        shutil.rmtree(wt + '_shadow', ignore_errors=True)
         shutil.rmtree(wt, ignore_errors=True)
     return sid, res
 
@@ -82,6 +96,8 @@ def main():
         return [c for c in checks_mode.split(',') if c in cl]
 
     jobs_each = max(2, (os.cpu_count() or 4) // jobs)
+    for k in range(jobs):
+        SLOTS.put(k)
     with ThreadPoolExecutor(max_workers=jobs) as ex:
         futs = [ex.submit(eval_one, sid, checks_for(sid), tier, jobs_each) for sid in ids]
         for f in futs:
@@ -103,6 +119,8 @@ def main():
             own = json.load(open(os.path.join(ROOT, 'seeded', sid, 'meta.json')))['property']
             print(f'{sid}: own={own} {"DETECTED" if own in det else ("own-check-not-built" if own not in cl else "MISSED")} by={det} machinery={mach} ' + (res.get(own, {}).get('first', '') if own in res else ''))
             sys.stdout.flush()
+    for k in range(jobs):
+        shutil.rmtree(f'/tmp/se_slot{k}_shadow', ignore_errors=True)
 
 
 if __name__ == '__main__':
